@@ -14,6 +14,6 @@ HARNESSES = [
 import importlib.util as _ilu
 _rp = _ilu.spec_from_file_location('realspec', os.path.join(os.path.dirname(os.path.abspath(__file__)), '..', 'real', 'spec.py'))
 _real = _ilu.module_from_spec(_rp); _rp.loader.exec_module(_real)
-HARNESSES += [x for x in _real.HARNESSES if x['name'] == 'h_real'] + [x for x in _real.MEMPOOL_HARNESSES if x['name'] == 'h_mempool_reject']
+HARNESSES += [x for x in _real.HARNESSES if x['name'] == 'h_real'] + [x for x in _real.MEMPOOL_HARNESSES if x['name'] == 'h_mempool_reject'] + _real.INV_HARNESSES
 EXPLANATION = 'The real BlockTree<BtcBlock>/BaseBlockTree code is executed symbolically over every bounded history; the invariants are asserted after each step.'
 ASSUMPTIONS = ['block hashes are preset small ids (no SHA-256); regtest parameters', 'h_real covers AltBlockTree acceptBlock/connectBlock and the ALT payload index on small scenarios; mempool activity and VTBs are not covered']
